@@ -336,7 +336,8 @@ def check_piston(case):
         o.label('overdriven-skip')
         return o
     xmax = s.wv_el * case['t'] * 1.25
-    x = np.array(sorted([xmax * f for f in case['fr']] + [xmax]))
+    # (nodes exactly on the two wave fronts as well: whichever side the solver assigns them to, the record must be one thermodynamic state)
+    x = np.array(sorted([xmax * f for f in case['fr']] + [xmax, s.wv_pl * case['t'], s.wv_el * case['t']]))
     sol = cat.quiet(s, x, case['t'])
     rho, p, e = (np.asarray(sol[k], float) for k in ('density', 'pressure', 'specific_internal_energy'))
     o.label(P['model'], 'plastic' if np.any(x < s.wv_pl * case['t']) else '', 'elastic' if np.any((x > s.wv_pl * case['t']) & (x < s.wv_el * case['t'])) else '')
